@@ -262,6 +262,8 @@ enum Stage {
     FilterMap(ExprClosure),
     Cloned,
     Copied,
+    /// `.skip(n)`: the first n elements that reach this stage are dropped
+    Skip(Expr),
 }
 
 struct Chain {
@@ -305,6 +307,11 @@ fn parse_chain(e: &Expr) -> Option<Chain> {
                 ch.stages.push(Stage::Copied);
                 return Some(ch);
             }
+            "skip" if mc.args.len() == 1 => {
+                let mut ch = parse_chain(&mc.receiver)?;
+                ch.stages.push(Stage::Skip(mc.args[0].clone()));
+                return Some(ch);
+            }
             _ => {}
         }
     }
@@ -334,12 +341,13 @@ impl<'a> Rw<'a> {
         for st in &ch.stages {
             match st {
                 Stage::Map(c) | Stage::Filter(c) | Stage::FilterMap(c) => pats.push(closure_single_pat(c)?),
-                Stage::Cloned | Stage::Copied => {
+                Stage::Cloned | Stage::Copied | Stage::Skip(_) => {
                     let id = self.fresh("e");
                     pats.push(parse_quote!(#id));
                 }
             }
         }
+        let mut counters: Vec<TokenStream> = Vec::new();
         let sink_pat: Pat = match last_pat {
             Some(p) => p,
             None => {
@@ -376,6 +384,13 @@ impl<'a> Rw<'a> {
                     let id = in_ident.clone()?;
                     quote! { let #out_pat = (*#id).clone(); #body }
                 }
+                Stage::Skip(n) => {
+                    // the counter lives in front of the loop; every element still flows through the earlier stages, as with std
+                    let id = in_ident.clone()?;
+                    let k = self.fresh("k");
+                    counters.push(quote! { let mut #k: usize = 0; });
+                    quote! { if #k < #n { #k = #k + 1; } else { let #out_pat = #id; #body } }
+                }
             };
             // patch filter element plumbing
             if let Stage::Filter(_) = &ch.stages[i] {
@@ -389,7 +404,7 @@ impl<'a> Rw<'a> {
         }
         let first = &pats[0];
         let src = &ch.source;
-        Some(quote! { for #first in #src { #body } })
+        Some(quote! { #(#counters)* for #first in #src { #body } })
     }
 
     /// try to lower an iterator sink expression into a block expression with an explicit loop
@@ -448,6 +463,21 @@ impl<'a> Rw<'a> {
                 let lp = self.build_loop(&ch, Some(xp), upd)?;
                 self.bump("R22.max_min");
                 Some(parse_quote!({ let mut #m = None; #lp #m }))
+            }
+            "sum" if mc.args.is_empty() => {
+                // CHAIN.sum::<f64>() -> the left fold with `+` from the value `impl Sum for f64` starts from (prelude/f64_ops.vrs:
+                // vx_f64_sum_init(), uninterpreted; elements may be f64 or &f64: x.vx_val())
+                let tf = mc.turbofish.as_ref().map(|t| t.to_token_stream().to_string().replace(' ', ""));
+                if tf.as_deref() != Some("::<f64>") {
+                    return None;
+                }
+                let ch = parse_chain(&mc.receiver)?;
+                let a = self.fresh("s");
+                let x = self.fresh("x");
+                let xp: Pat = parse_quote!(#x);
+                let lp = self.build_loop(&ch, Some(xp), quote! { #a = #a + #x.vx_val(); })?;
+                self.bump("R22.sum_f64");
+                Some(parse_quote!({ let mut #a: f64 = vx_f64_sum_init(); #lp #a }))
             }
             "count" if mc.args.is_empty() => {
                 let ch = parse_chain(&mc.receiver)?;
@@ -579,6 +609,17 @@ impl<'a> VisitMut for Rw<'a> {
                             let ty = &pt.ty;
                             let tf: AngleBracketedGenericArguments = parse_quote!(::<#ty>);
                             mc.turbofish = Some(tf);
+                        }
+                    }
+                }
+            }
+        }
+        if let Pat::Type(pt) = &l.pat {
+            if pt.ty.to_token_stream().to_string() == "f64" {
+                if let Some(init) = &mut l.init {
+                    if let Expr::MethodCall(mc) = &mut *init.expr {
+                        if mc.method == "sum" && mc.args.is_empty() && mc.turbofish.is_none() {
+                            mc.turbofish = Some(parse_quote!(::<f64>));
                         }
                     }
                 }
@@ -808,6 +849,22 @@ impl<'a> VisitMut for Rw<'a> {
                         self.bump("R11.refpat");
                     }
                 }
+            }
+        }
+        if self.enabled("R25") {
+            // `E as f64` -> `(E).vx_as_f64()` (Verus gives int->float casts no meaning; prelude/f64_ops.vrs: a deterministic
+            // function of the mathematical value of E for the integer types, the identity on f64)
+            let mut repl: Option<Expr> = None;
+            if let Expr::Cast(c) = e {
+                if c.ty.to_token_stream().to_string() == "f64" {
+                    let inner = &c.expr;
+                    repl = Some(parse_quote!((#inner).vx_as_f64()));
+                }
+            }
+            if let Some(r) = repl {
+                *e = r;
+                self.bump("R25.cast_f64");
+                return;
             }
         }
         if self.enabled("R24") {
@@ -1210,12 +1267,19 @@ impl VisitMut for KeepArms {
 /// gives `.collect()` in result position of a Vec-returning function the turbofish `::<Vec<_>>` so that R1 can lower it
 struct TailCollect {
     n: u32,
+    /// false: `.collect()` of a Vec-returning function; true: `.sum()` of an f64-returning function
+    sum_f64: bool,
 }
 impl TailCollect {
     fn fix(&mut self, e: &mut Expr) {
         match e {
-            Expr::MethodCall(mc) if mc.method == "collect" && mc.args.is_empty() && mc.turbofish.is_none() => {
+            Expr::MethodCall(mc) if !self.sum_f64 && mc.method == "collect" && mc.args.is_empty() && mc.turbofish.is_none() => {
                 let tf: AngleBracketedGenericArguments = parse_quote!(::<Vec<_>>);
+                mc.turbofish = Some(tf);
+                self.n += 1;
+            }
+            Expr::MethodCall(mc) if self.sum_f64 && mc.method == "sum" && mc.args.is_empty() && mc.turbofish.is_none() => {
+                let tf: AngleBracketedGenericArguments = parse_quote!(::<f64>);
                 mc.turbofish = Some(tf);
                 self.n += 1;
             }
@@ -2116,7 +2180,15 @@ fn do_fn(items: &[Item], req: &ItemReq, feats: &[String]) -> std::result::Result
     // `.collect()` in tail / return position of a function that returns Vec<..>: the target type is known
     let ret_is_vec = matches!(&sig.output, ReturnType::Type(_, t) if matches!(&**t, Type::Path(tp) if tp.path.segments.last().map(|s| s.ident == "Vec").unwrap_or(false)));
     if ret_is_vec {
-        let mut tc = TailCollect { n: 0 };
+        let mut tc = TailCollect { n: 0, sum_f64: false };
+        if let Some(Stmt::Expr(e, None)) = block.stmts.last_mut() {
+            tc.fix(e);
+        }
+        tc.visit_block_mut(&mut block);
+    }
+    let ret_is_f64 = matches!(&sig.output, ReturnType::Type(_, t) if t.to_token_stream().to_string() == "f64");
+    if ret_is_f64 {
+        let mut tc = TailCollect { n: 0, sum_f64: true };
         if let Some(Stmt::Expr(e, None)) = block.stmts.last_mut() {
             tc.fix(e);
         }
